@@ -16,6 +16,7 @@ ARG_CLASSES = ("fast_ticc.containers.arguments.UserArguments", "fast_ticc.contai
 VALUE_CALLS = {"builtins.float", "builtins.int", "builtins.abs", "numpy.asarray", "numpy.array", "numpy.float64",
                "numpy.copy", "numpy.abs", "numpy.squeeze", "numpy.atleast_1d", "numpy.atleast_2d"}
 REAL_OK_NAMES = {"numbers.Real", "numbers.Number", "numbers.Complex"}
+DISPATCH_SITES = {"admm.solver.compute_lambda_sum"}      # confirmed by reading: the only place where scalar and matrix lambda part ways
 
 
 def tainted_params(ana) -> Dict[str, Set[str]]:
@@ -226,8 +227,30 @@ def r1(ctx):
                 r = ana.res.fq_of_expr(fi, n.func)
                 if r and r[1] in ("numpy.ndim", "numpy.isscalar") and n.args and is_tainted(ana, fi, n.args[0], taint):
                     seen += 1
+                    if short(fi.qualname) not in DISPATCH_SITES:
+                        # a second place where the scalar and the array form part ways: that both branches compute the same thing is
+                        # established for the confirmed sites only (C18.R2, C18.R3)
+                        ctx.unrecognised(fi, f"`{unparse(n)}` separates the scalar from the array form of a hyper-parameter outside the confirmed dispatch site(s) "
+                                         f"({', '.join(sorted(DISPATCH_SITES))}): agreement of the two branches is not derived here", line=n.lineno,
+                                         role=f"{r[1]}@{short(fi.qualname)}")
+                        continue
                     ctx.ok(fi, f"`{unparse(n)}` classifies every real scalar (Python or NumPy) as a scalar", line=n.lineno,
                            role=f"{r[1]}@{short(fi.qualname)}")
+                if r and r[1] in ("builtins.hasattr", "builtins.getattr") and len(n.args) >= 2 and isinstance(n.args[1], ast.Constant) \
+                        and n.args[1].value in ("shape", "ndim", "size", "dtype", "__len__", "__array__", "T", "flat") and is_tainted(ana, fi, n.args[0], taint):
+                    seen += 1
+                    ctx.fail(fi, f"`{unparse(n)}` is used as an array test on a user hyper-parameter, but NumPy scalars carry `.{n.args[1].value}` too: "
+                             "np.float64(x) is treated as an array where float(x) is a scalar", line=n.lineno, role=f"hasattr@{short(fi.qualname)}",
+                             expected="np.ndim(x) == 0 / np.isscalar(x)", found=unparse(n))
+            if isinstance(n, ast.Compare) and len(n.ops) == 1 and isinstance(n.ops[0], (ast.Eq, ast.NotEq)):
+                for side in (n.left, n.comparators[0]):
+                    ty = ana.res.type_of(fi, side) if isinstance(side, (ast.Name, ast.Attribute)) else None
+                    if ty in (("cls", c_) for c_ in ARG_CLASSES):
+                        seen += 1
+                        ctx.fail(fi, f"`{unparse(n)}` compares argument bundles field by field (dataclass equality): with an array-valued hyper-parameter the "
+                                 "comparison has no truth value (ValueError) where the scalar form passes", line=n.lineno, role=f"bundle-eq@{short(fi.qualname)}",
+                                 expected="no == / != on UserArguments / ADMMArguments", found=unparse(n))
+                        break
     _shape_validations(ctx, ana, taint)
     if seen == 0:
         ctx.ok("package", "no type dispatch on a user hyper-parameter anywhere (nothing can reject a scalar form)", role="none")
